@@ -15,7 +15,7 @@ import (
 // the conditions the property states, for target forests with symbolic ranges
 // and menu-chosen addresses, scopes and types.
 
-var verifTypeMenu = []cty.Type{cty.NilType, cty.DynamicPseudoType, cty.String, cty.Number, cty.List(cty.String), cty.Object(map[string]cty.Type{"a": cty.String})}
+var verifTypeMenu = []cty.Type{cty.NilType, cty.DynamicPseudoType, cty.String, cty.Number, cty.List(cty.String), cty.Object(map[string]cty.Type{"a": cty.String}), cty.Map(cty.DynamicPseudoType)}
 var verifScopeMenu = []lang.ScopeId{"", "variable", "resource"}
 
 // The enumerated dimensions are split over three instances: 0 varies visibility
